@@ -126,7 +126,12 @@ class ParseRoles:
         if views == 'ho':
             # also open private *higher-order* helpers (`scan_while(|t, ch| ..)`, `take_run(start, pred)`): what
             # they do depends on the closure / fn they are handed, so they are read at their call sites
+            tadt = self.prog.f.adt_by_name.get(self.token_adt) or {'variants': []}
+            span_tys = {v['fields'][1]['ty'] for v in tadt['variants'] if len(v['fields']) == 2}
+
             def keep(g):
+                if not g.is_closure and g.arg_count >= 1 and g.locals[0]['ty'] in span_tys and all(g.locals[k]['ty'] == 'usize' for k in range(1, g.arg_count + 1)):
+                    return False      # a span constructor over positions (`Span::single(start)` = Span(start, start + 1)): read where it is used
                 if g.is_pub:
                     return True
                 for k in range(1, g.arg_count + 1):
@@ -280,6 +285,29 @@ def op_const_str_traced(body, op):
     o = single_origin(trace_operand(body, op))
     if o is not None and o.kind == 'const':
         return op_const_str(o.data)
+    if o is not None and o.kind == 'callres' and not o.proj and o.data.ruid and 'str' in o.data.term['dest'].get('ty', ''):
+        # the spelling comes from a pure local function of constants (`DelimTokenType::CloseParen.as_str()`): run it
+        import cinterp
+        prog = getattr(body.facts, '_prog', None)
+        g = prog.by_id.get(o.data.ruid) if prog is not None else None
+        if g is not None and not g.is_closure:
+            try:
+                it = cinterp.Interp(prog)
+                vals = []
+                for a in o.data.args:
+                    ao = single_origin(trace_operand(body, a))
+                    if ao is not None and ao.kind == 'agg' and not ao.proj and ao.data[2].get('agg') == 'adt' and not ao.data[2]['ops']:
+                        rv = ao.data[2]       # a field-less enum value (`&DelimTokenType::CloseParen`, promoted)
+                        vals.append(('adt', rv.get('adt'), cinterp._variant_index(body.facts, rv.get('adt'), rv['variant']) if rv.get('variant') else 0, ()))
+                        continue
+                    if ao is None or ao.kind != 'const' or ao.proj:
+                        raise cinterp.Unknown('argument is not a constant')
+                    vals.append(it.operand(body, {}, ao.data, 0))
+                v = it.run(g, vals)
+                if isinstance(v, str):
+                    return v
+            except cinterp.Unknown:
+                return None
     return None
 
 
